@@ -1,0 +1,41 @@
+//go:build verif
+
+package rtree
+
+// VerifNode describes one node of the tree for verification harnesses. Nodes
+// are numbered from 1 in pre-order, so the root is node 1 and every child has
+// a higher number than its parent.
+type VerifNode struct {
+	Leaf     bool
+	Boxes    []Box
+	Children []int // node numbers (branch nodes only)
+	Records  []int // record IDs (leaf nodes only)
+}
+
+// VerifDump exports the node structure of the tree. It is only compiled with
+// the verif build tag and doesn't alter the tree.
+func (t *RTree) VerifDump() []VerifNode {
+	var out []VerifNode
+	var rec func(n *node) int
+	rec = func(n *node) int {
+		out = append(out, VerifNode{})
+		idx := len(out) - 1
+		var vn VerifNode
+		for i := 0; i < n.numEntries; i++ {
+			e := n.entries[i]
+			vn.Boxes = append(vn.Boxes, e.box)
+			if e.child == nil {
+				vn.Records = append(vn.Records, e.recordID)
+			} else {
+				vn.Children = append(vn.Children, rec(e.child)+1)
+			}
+		}
+		vn.Leaf = len(vn.Children) == 0
+		out[idx] = vn
+		return idx
+	}
+	if t.root != nil && t.root.numEntries > 0 {
+		rec(t.root)
+	}
+	return out
+}
